@@ -31,10 +31,12 @@ def gen_case(rs, tier):
     if krng.random() < 0.2:
         from .c01 import gen_faults
         faults = [f for f in gen_faults(W.stream(rs, "faults")) if f["kind"] != "stdout.epipe"]
-    return {"design": ast, "knobs": knobs, "peer2": p2, "tier": tier, "faults": faults}
+    case = {"design": ast, "knobs": knobs, "peer2": p2, "tier": tier, "faults": faults}
+    case["sweep"] = W.stream(rs, "sweep").random() < (0.15 if tier == "thorough" else 0.04)
+    return case
 
 
-def run_case(case):
+def run_one(case):
     ast = case["design"]
     tier = case.get("tier", "quick")
     m = refsem.elaborate(ast)
@@ -53,6 +55,7 @@ def run_case(case):
     counters = Counter()
     faults_fired = Counter()
     fe = None
+    optrace = None
     for pi, peer in enumerate([case["knobs"]["peer"], case["peer2"]]):
         kn = dict(case["knobs"])
         kn["peer"] = peer
@@ -75,6 +78,8 @@ def run_case(case):
             counters.update(w.counters)
             faults_fired.update(w.fault_fired)
             fe = fe or common.first_events(w)
+            if pi == 0 and kn.get("optrace"):
+                optrace = {"fs": list(w.op_trace["fs"]), "peer": list(w.op_trace["peer"]), "stdout": w.stdout.nchars}
             if exc is not None:
                 if w.fault_fired:
                     results.append(None)
@@ -88,6 +93,8 @@ def run_case(case):
             "summary": {"design": dast.describe(ast), "T": m.T, "V_distinct": len(V), "V_total": total,
                         "policies": [case["knobs"]["peer"], case["peer2"]], "transport": case["knobs"]["transport"],
                         "faults": case.get("faults")}}
+    if optrace is not None:
+        base["optrace"] = optrace
     for pi, r in enumerate(results):
         if r is None:
             continue
@@ -123,6 +130,16 @@ def run_case(case):
         return base
     base["outcome"] = "ok"
     return base
+
+
+SWEEP_KINDS = ['fs.enospc', 'fs.eio', 'fs.eacces', 'fs.vanish', 'peer.raise', 'peer.unknown', 'peer.memory']
+
+
+def run_case(case):
+    """A sweep case runs the workload fault-free and then once per (operation index x fault kind) placement."""
+    if case.get("sweep"):
+        return common.fault_sweep(run_one, case, SWEEP_KINDS, cap=160 if case.get("tier") == "thorough" else 60)
+    return run_one(case)
 
 
 def shrink_candidates(case):
